@@ -20,3 +20,9 @@ Definition pin_3 : forall sch block a recs rest,
 Definition pin_4 : forall t key i, lookup_sorted t key = Some i -> In (key, i) t := C17_lookup_sorted_sound.
 Definition pin_5 : forall t key i,
     sorted_keys t -> In (key, i) t -> exists j, lookup_sorted t key = Some j /\ In (key, j) t := C17_lookup_sorted_complete.
+Definition pin_6 : forall sch arrays recs,
+    Forall (fun r => fits (flat sch) r = true) recs ->
+    Forall nul_free (strings_of recs) ->
+    lenN recs < pow256 4 -> field_count sch arrays < pow256 4 -> N.of_nat (lay_size (lay sch)) < pow256 4 ->
+    lenN (fst (build_block recs)) < pow256 4 ->
+    dbc_read sch (dbc_write sch arrays recs) = Some recs := C17_dbc_roundtrip.
